@@ -67,7 +67,7 @@ def run_case(case):
     faces, meta = gen.gen_grid(rng, cls, nmin=1 if not case.get('geo') else 2, nmax=nmax, family=gfam or fam, opts=gopts)
     g = Geom(cls, faces)
     m = gen.build_mesh(pf, cls, faces)
-    cov = {'ident:%s:%s' % (ident, cls): 1}
+    cov = {'ident:%s:%s' % (ident, cls): 1, 'ufam:' + str(case.get('ufam', 'sign')): 1}
     if case.get('geo'):
         cov['geo:' + case['geo']] = 1
     maxerr = {}
@@ -205,6 +205,9 @@ def plan(tier, seed):
                 cases.append({'cls': cls, 'ident': ident, 'seed': [seed, 5, ci, i], 'geo': ['nano', 'jitter', 'mega', 'int'][rep % 4],
                               'ufam': ['sign', 'random'][rep % 2]})
                 i += 1
+            for rep in range(3 if tier == 'quick' else 24):     # coefficient / velocity components stored in integer arrays
+                cases.append({'cls': cls, 'ident': ident, 'seed': [seed, 5, ci, i], 'ufam': 'int', 'family': gen.FAMILIES[rep % 5] if rep % 2 else None})
+                i += 1
         for li, name in enumerate(LIMITERS + ['const1']):
             for rep in range(1 if tier == 'quick' else 12):
                 if name == 'const1':
@@ -223,6 +226,8 @@ def floors(agg, tier):
         for ident in IDENTS + ['tvd-flux']:
             if agg['cov'].get('ident:%s:%s' % (ident, cls), 0) < 5:
                 out.append('ident:%s:%s < 5' % (ident, cls))
+    if agg['cov'].get('ufam:int', 0) < 100:
+        out.append('ufam:int < 100')
     for geo in ('nano', 'jitter', 'mega', 'int'):
         if agg['cov'].get('geo:' + geo, 0) < 30:
             out.append('geo:%s < 30' % geo)
